@@ -72,6 +72,18 @@ func runC20(c *Ctx) {
 		return
 	}
 	c.Dist["palette-actions"] = len(palette)
+	// the static (query-less) groups of the repository's test assets: has_group cases name them
+	var staticGroups []struct{ UUID, Name, Query string }
+	json.Unmarshal(base["groups"], &staticGroups)
+	{
+		var kept []struct{ UUID, Name, Query string }
+		for _, g := range staticGroups {
+			if g.Query == "" {
+				kept = append(kept, g)
+			}
+		}
+		staticGroups = kept
+	}
 	env := envs.NewBuilder().WithAllowedLanguages("eng", "spa").WithDefaultCountry("US").Build()
 	n := c.N(600, 30000)
 	for i := 0; i < n; i++ {
@@ -107,7 +119,15 @@ func runC20(c *Ctx) {
 				cu := us.next()
 				cats = append(cats, map[string]any{"uuid": cu, "name": Pick(r, []string{"Red", "Blue", "Other", "Yes"}), "exit_uuid": eu})
 				if k > 0 {
-					cases = append(cases, map[string]any{"uuid": us.next(), "type": "has_any_word", "arguments": []string{Pick(r, []string{"red", "blue", "yes"})}, "category_uuid": cu})
+					if len(staticGroups) > 0 && r.Chance(25) {
+						// a fixed group: a dependency. Test names are lower-case; other spellings must be refused when the flow is
+						// read, or be treated like the lower-case one by everything, inspection included
+						g := Pick(r, staticGroups)
+						typ := Pick(r, []string{"has_group", "has_group", "has_group", "HAS_GROUP", "Has_Group"})
+						cases = append(cases, map[string]any{"uuid": us.next(), "type": typ, "arguments": []string{g.UUID, g.Name}, "category_uuid": cu})
+					} else {
+						cases = append(cases, map[string]any{"uuid": us.next(), "type": "has_any_word", "arguments": []string{Pick(r, []string{"red", "blue", "yes"})}, "category_uuid": cu})
+					}
 				}
 			}
 			if cases == nil {
@@ -353,6 +373,33 @@ func runC20(c *Ctx) {
 			kinds["waiting-exit"] = true
 			if in := inspections[parts[0]]; in != nil && !in.waiting[parts[1]] {
 				fail("waiting-exit-missing", "a resumed run left its wait through exit "+parts[1]+" which inspection does not list as a waiting exit")
+			}
+		}
+		// groups named by has_group cases, read from the definition itself
+		for fu := range flowsByUUID {
+			var def struct {
+				Nodes []struct {
+					Router *struct {
+						Cases []struct {
+							Type      string   `json:"type"`
+							Arguments []string `json:"arguments"`
+						} `json:"cases"`
+					} `json:"router"`
+				} `json:"nodes"`
+			}
+			json.Unmarshal([]byte(defJSON[fu]), &def)
+			for _, nd := range def.Nodes {
+				if nd.Router == nil {
+					continue
+				}
+				for _, cs := range nd.Router.Cases {
+					if strings.ToLower(cs.Type) == "has_group" && len(cs.Arguments) > 0 {
+						kinds["group-case"] = true
+						if !inspections[fu].deps["group:"+cs.Arguments[0]] {
+							fail("dependency-missing:group-case", "a switch case ("+cs.Type+") tests membership of group "+cs.Arguments[0]+" which inspection does not list")
+						}
+					}
+				}
 			}
 		}
 		// template-borne globals and fields: statically named references anywhere in the definition, translations included
